@@ -36,9 +36,9 @@ LEVEL = {
          "TLA+ model checking of the nondeterministic constructions + trace validation of final matrices as insertion traces", "5 C16"),
  "C13": ("BerEngine.tla (PlusCal) models the collector, W free-running workers, the unbounded result channel with its set of live sender handles, the capacity-1 terminate channels, joins, the reporter and epochs, one label per blocking or "
          "visible step. TLC explores every interleaving for W=2 (3 thorough), target 2, 1-2 epochs with three frame outcomes and checks StatsExact (counters = fold over consumed frames), StopExact, the outer-code rule, NoLeak, FinishedLast, "
-         "NoStuck, and Termination as a liveness property under weak fairness in every fault mode; the as-found design (collector keeps a sender; join().unwrap()) is rejected in two negative configurations. The real engine is bound by trace "
+         "NoStuck, one output-file line per Eb/N0 for the CLI's Progress thread (a third process), and Termination of collector and Progress as liveness properties under weak fairness in every fault mode; the as-found design (collector keeps a sender; join().unwrap()) is rejected in two negative configurations. The real engine is bound by trace "
          "validation of whole runs in child processes under a watchdog (worker counts via CPU affinity, scripted per-worker outcomes, randomised delays, Reporter interval 0, fault injection): TLC must explain the report stream by consuming "
-         "worker outcomes in per-worker order (inferring the unlogged arrival order by search), with exact counters, ratios, stopping frame, returned statistics, dropped decoders and Finished last; faults must end in an error, not a hang or panic.",
+         "worker outcomes in per-worker order (inferring the unlogged arrival order by search), with exact counters, ratios, stopping frame, returned statistics, dropped decoders and Finished last; faults must end in an error, not a hang or panic. (Thorough tier: an Apalache inductive-invariant proof of the accumulation/stopping rule for unboundedly many frames is recorded as extra evidence.)",
          "TLC + Json/IOUtils; scripted decoder is the source of frame outcomes (bit errors = flips relies on C12); schedules of the real engine are perturbed, not enumerated; 20 s watchdog.",
          "PlusCal/TLA+ model checking of all interleavings (safety + liveness) + trace validation of real multi-threaded runs with inference of unlogged choices", "5 C13"),
  "C12": ("Chain.tla composes puncture -> interleave -> (channel) -> deinterleave -> depuncture on tagged positions and states the sizes (n counted after puncturing, rate = k/n, sigma^2 = 1/(2 rate bps Eb/N0)); TLC checks on all "
@@ -67,7 +67,7 @@ LEVEL = {
  "C03": ("BP.tla is the textbook: flooding (all check messages from the previous variable messages, then all variable updates) and horizontal layered (checks in row order with immediate update), syndrome test after "
          "every full iteration, generic over arithmetic operators. TLC checks with exact integer min-sum that after #checks+1 forced iterations the LLRs on forests equal the tropical posterior (min-cost difference over all "
          "codewords) for both schedules. The real generic decoders are bound by trace validation: instantiated with the checker-supplied IntMinSum (value types scaled differently so a mis-routed conversion is visible), one "
-         "long-lived decoder per short call history, and TLC recomputes verdict/word/iterations of every call from BP.tla; the posterior clause is checked with the real Phi/Tanh arithmetics wrapped to iterate diameter(+3) times on random forests against a brute-force posterior.",
+         "long-lived decoder per short call history, and TLC recomputes verdict/word/iterations of every call from BP.tla; the 20 factory-built 8-bit decoders are compared call by call with BP.tla composed with the exact integer rule sets of Arith.tla (BP8.tla); the posterior clause is checked with the real Phi/Tanh arithmetics wrapped to iterate diameter(+3) times on random forests against a brute-force posterior.",
          "TLC + Json/IOUtils; IntMinSum (harness) implements MinSum.tla; brute-force posterior oracle in f64; f32/f64 tolerance constants in Trace_C03.tla, applied inside the working range.",
          "TLA+ model checking of the textbook schedules (tropical exactness) + trace validation of the real generic decoders with a checker-supplied arithmetic", "5 C03"),
  "C04": ("Arith.tla contains the exact integer model of the sixteen 8-bit check rules (correction table typed independently, fold with clamp, first-minimum A-Min*, saturating lookup, partial hard limit) and the "
